@@ -34,6 +34,7 @@ type Oblig struct {
 	Bounded bool  `json:"bounded,omitempty"`
 	Opaque []string `json:"opaque,omitempty"`
 	NoAssumed bool `json:"-"` // query variant without the "asserted, then assumed" context lines (replay search)
+	Hide  []int `json:"-"` // context lines not shown to this obligation (`forgets earlier invariants`)
 	RetID int `json:"-"` // created while processing the RetID-th return (sees that return's local context)
 }
 
@@ -147,6 +148,10 @@ type Gen struct {
 	nret int
 	replay *replayInfo
 	assumedIdx []int
+	invIdx     []int         // context lines that are loop invariants / proof steps (candidates for `forgets earlier invariants`)
+	headStart  map[*ssa.BasicBlock]int // loop head -> number of context lines when it was reached
+	baseHide   []int         // hidden from every obligation generated after a `cut at` clause
+	curHide    []int         // context lines hidden from the obligations being generated now
 	inRet      int      // ordinal of the return being processed (0 outside)
 	retLocal   [][3]int // [from, to, ret]: context lines that only matter to the obligations of that return
 	firedAnchors map[string]bool
@@ -207,6 +212,7 @@ func (g *Gen) assume(guard, a string) {
 // these context lines are remembered so that replay can drop them (see replayOblig).
 func (g *Gen) assumeProved(guard, a string) {
 	g.assumedIdx = append(g.assumedIdx, len(g.defs))
+	g.invIdx = append(g.invIdx, len(g.defs))
 	g.assume(guard, a)
 }
 
@@ -232,7 +238,7 @@ func (g *Gen) ob(kind, label, prop, desc string) *Oblig {
 	} else if g.kinds[base] > 1 {
 		name = fmt.Sprintf("%s@%d", base, g.kinds[base])
 	}
-	o := &Oblig{Name: g.fnName + "/" + name, Kind: kind, Fn: g.fnName, Guard: g.curR, Prop: prop, Ctx: len(g.defs), Desc: desc, gen: g, RetID: g.inRet}
+	o := &Oblig{Name: g.fnName + "/" + name, Kind: kind, Fn: g.fnName, Guard: g.curR, Prop: prop, Ctx: len(g.defs), Desc: desc, gen: g, RetID: g.inRet, Hide: g.curHide}
 	if g.topC != nil {
 		o.Opaque = g.topC.Opaque
 	}
@@ -578,17 +584,22 @@ func (g *Gen) memComp(elem types.Type) (string, string) {
 // (in this or an earlier iteration; the latter are anonymous after the havoc): they are never the objects the
 // loop body is about to allocate -- neither this function's own allocation sites still to come, nor the
 // ranges reserved for the callees still to be called.
+// beforeHere(v): reference v denotes nil or an object that exists at this point of the symbolic execution --
+// an entry object, or one of this function's allocations / a callee's reserved range used SO FAR; not one of
+// the allocation sites and callee ranges still to come.
+func (g *Gen) beforeHere(v string) string {
+	if g.nfresh == 0 && g.ncallFresh == 0 {
+		return fmt.Sprintf("(and (<= 0 %s) (< %s %s))", v, v, refBound)
+	}
+	return fmt.Sprintf("(and (<= 0 %s) (not (and (< %d %s) (< %s 1001000000))) (< %s %d000000000000))", v, 1000000000+g.nfresh, v, v, v, 2+g.ncallFresh)
+}
+
 func (g *Gen) loopHeadRefsAxiom(name, ver string) {
 	kind, ok := g.refComps[name]
 	if !ok {
 		return
 	}
-	before := func(v string) string {
-		if g.nfresh == 0 && g.ncallFresh == 0 {
-			return fmt.Sprintf("(and (<= 0 %s) (< %s %s))", v, v, refBound)
-		}
-		return fmt.Sprintf("(and (<= 0 %s) (not (and (< %d %s) (< %s 1001000000))) (< %s %d000000000000))", v, 1000000000+g.nfresh, v, v, v, 2+g.ncallFresh)
-	}
+	before := g.beforeHere
 	switch kind {
 	case "field":
 		g.assumeGlobal(fmt.Sprintf("(forall ((r Int)) (! %s :pattern ((select %s r))))", before(fmt.Sprintf("(select %s r)", ver)), ver))
@@ -1488,6 +1499,66 @@ func (g *Gen) runFrame() {
 		g.ob("every-loop-iterates", "", p, fmt.Sprintf("the source has %d for/range statements, the control-flow graph %d loops: a loop body that always leaves the loop looks at its first element only", nAst, len(li.headers)))
 		g.curR = save
 	}
+	if fr.c != nil && fr.c.Deterministic && g.depth == 0 {
+		// the results are a function of the arguments and the heap: nothing in the body observes Go's map
+		// iteration order, a channel, the scheduler, or a callee not itself declared deterministic
+		var bad []string
+		var scan func(f *ssa.Function, depth int)
+		scan = func(f *ssa.Function, depth int) {
+			for _, b := range f.Blocks {
+				for _, in := range b.Instrs {
+					switch x := in.(type) {
+					case *ssa.Range:
+						if _, isMap := x.X.Type().Underlying().(*types.Map); isMap {
+							bad = append(bad, "range over a map")
+						}
+					case *ssa.Go:
+						bad = append(bad, "go statement")
+					case *ssa.Select:
+						bad = append(bad, "select")
+					case *ssa.Send:
+						bad = append(bad, "channel send")
+					case *ssa.UnOp:
+						if x.Op == token.ARROW {
+							bad = append(bad, "channel receive")
+						}
+					case ssa.CallInstruction:
+						cc := x.Common()
+						if _, ok := cc.Value.(*ssa.Builtin); ok {
+							continue
+						}
+						callee := cc.StaticCallee()
+						var ct *Contract
+						if callee != nil {
+							ct = g.contractFor(callee, cc)
+						}
+						if ct != nil && ct.Deterministic {
+							continue
+						}
+						// a callee that is seen through (declared `inline`, or a small helper) is judged by its body
+						if callee != nil && callee.Blocks != nil && depth < 3 && (ct == nil || ct.Inline) && g.inlineOK(callee, ct) {
+							scan(callee, depth+1)
+							continue
+						}
+						name := "a function value / interface method"
+						if callee != nil {
+							name = shortFn(funcKey(callee))
+						}
+						bad = append(bad, "call of "+name+" (not declared deterministic)")
+					}
+				}
+			}
+		}
+		scan(fn, 0)
+		save := g.curR
+		g.curR = "true"
+		p := "true"
+		if len(bad) > 0 {
+			p = "false"
+		}
+		g.ob("deterministic", "", p, "results are a function of arguments and heap only; offending: "+strings.Join(uniq(bad), "; "))
+		g.curR = save
+	}
 	order := topo(fn, li.back)
 	entryCur := g.cur
 	for _, b := range order {
@@ -1537,6 +1608,12 @@ func (g *Gen) runFrame() {
 						vals = append(vals, hv)
 					}
 					m := mergeIte(ins, vals)
+					if strings.HasPrefix(m, "(ite ") {
+						// a named version for the merged component: instantiation patterns must not contain `ite`
+						// (the solvers reject such patterns), and contract clauses stated at or after the join
+						// mention the component's current version in their patterns
+						m = g.define("H_"+n+"@join", g.comps[n], m)
+					}
 					if allPristine {
 						g.pristine[m] = true
 					}
@@ -1579,8 +1656,42 @@ func (g *Gen) runFrame() {
 		g.curR = fr.reach[b]
 		fr.curBlock = b
 		if k := li.ord[b]; k > 0 {
+			if g.headStart == nil {
+				g.headStart = map[*ssa.BasicBlock]int{}
+			}
+			g.headStart[b] = len(g.defs)
+		}
+		// inside the body of a loop declared `forgets earlier invariants`: hide the quantified invariants and
+		// proof steps that were established before that loop's head (innermost such loop)
+		hideFor := func(skipHead *ssa.BasicBlock) []int {
+			if fr.c == nil || fr.inl {
+				return g.baseHide
+			}
+			best := -1
+			for h, body := range li.body {
+				lc := fr.c.Loops[li.ord[h]]
+				if lc == nil || !lc.Forgets || !body[b] || h == skipHead {
+					continue
+				}
+				if st, ok := g.headStart[h]; ok && st > best {
+					best = st
+				}
+			}
+			out := append([]int{}, g.baseHide...)
+			if best >= 0 {
+				for _, i := range g.invIdx {
+					if i < best && i < len(g.defs) && strings.Contains(g.defs[i], "(forall ") {
+						out = append(out, i)
+					}
+				}
+			}
+			return out
+		}
+		if k := li.ord[b]; k > 0 {
+			g.curHide = hideFor(b) // the loop's own entry obligations are proved from what came before
 			g.loopHead(b, k, li)
 		}
+		g.curHide = hideFor(nil)
 		for _, in := range b.Instrs {
 			g.instr(in, li)
 		}
@@ -1620,6 +1731,28 @@ func (g *Gen) loopHead(b *ssa.BasicBlock, k int, li *loopInfo) {
 			g.note("loop %d of %s has no invariant (treated as `true`)", k, shortFn(funcKey(fr.fn)))
 		}
 	}
+	if len(lc.Vars) > 0 && !fr.inl {
+		// the contract says which source variables this loop carries: if the ordinal now denotes another
+		// loop (statements were added, removed or reordered), the invariants below are not about it
+		have := map[string]bool{"rangeindex": true}
+		for _, in := range b.Instrs {
+			if phi, ok := in.(*ssa.Phi); ok {
+				have[phi.Comment] = true
+			}
+		}
+		var missing []string
+		for _, v := range lc.Vars {
+			if !have[v] {
+				missing = append(missing, v)
+			}
+		}
+		if len(missing) > 0 {
+			save := g.curR
+			g.curR = "true"
+			g.ob("loop-binding", fmt.Sprintf("loop%d", k), "false", fmt.Sprintf("loop %d of the function does not carry the variable(s) %s its contract names: the invariants were written for another loop", k, strings.Join(missing, ", ")))
+			g.curR = save
+		}
+	}
 	// entry obligations
 	for _, p := range b.Preds {
 		if li.back[[2]int{p.Index, b.Index}] {
@@ -1649,6 +1782,16 @@ func (g *Gen) loopHead(b *ssa.BasicBlock, k int, li *loopInfo) {
 		t := g.fresh(fmt.Sprintf("l%d_%s", k, phi.Comment), g.sortOf(phi.Type()))
 		if c := g.typeInv(t, phi.Type(), false); c != "true" {
 			g.assumeAlways(c)
+		}
+		// a loop-carried reference denotes something that exists when the head is reached: never one of
+		// the objects the body is about to allocate
+		switch phi.Type().Underlying().(type) {
+		case *types.Pointer, *types.Map, *types.Chan:
+			if g.sortOf(phi.Type()) == "Int" {
+				g.assumeAlways(g.beforeHere(t))
+			}
+		case *types.Slice:
+			g.assumeAlways(g.beforeHere(fmt.Sprintf("(base %s)", t)))
 		}
 		fr.val[phi] = t
 		if phi.Comment != "" {
@@ -1747,7 +1890,9 @@ func (g *Gen) loopHead(b *ssa.BasicBlock, k int, li *loopInfo) {
 		env.oldEntry = true // old(e) in an invariant: e in the function's entry state
 	}
 	for _, inv := range lc.Inv {
-		g.assume(g.curR, g.transBool(inv.E, env))
+		t := g.transBool(inv.E, env)
+		g.invIdx = append(g.invIdx, len(g.defs))
+		g.assume(g.curR, t)
 	}
 	if lc.Decreases != nil {
 		d := g.trans(lc.Decreases, env)
